@@ -395,3 +395,28 @@ func scmpCampaign(r *core.Run) {
 	r.Nontrivial = n > 0
 	r.Sample = map[string]any{"ases": len(w.ASes), "flows": len(flows), "packets": n}
 }
+
+// scmpSeed builds one SCMP packet of a seed-chosen kind on the flow's path.
+func scmpSeed(r *core.Run, f *Flow, ext []gopacket.SerializableLayer) []byte {
+	ident := uint16(int(f.Src.PortStart) + r.Choice("ident", int(f.Src.PortEnd-f.Src.PortStart)+1))
+	switch r.Choice("scmpseed.kind", 4) {
+	case 0:
+		return buildL4(f, slayers.L4SCMP, 0, 1, ext, &slayers.SCMP{TypeCode: slayers.CreateSCMPTypeCode(slayers.SCMPTypeEchoRequest, 0)},
+			&slayers.SCMPEcho{Identifier: ident, SeqNumber: 1}, gopacket.Payload([]byte("ping")))
+	case 1:
+		raw := buildL4(f, slayers.L4SCMP, 0, 1, ext, &slayers.SCMP{TypeCode: slayers.CreateSCMPTypeCode(slayers.SCMPTypeTracerouteRequest, 0)},
+			&slayers.SCMPTraceroute{Identifier: ident, Sequence: 2})
+		p, err := refmodel.Parse(raw)
+		if err == nil && p.HasSCION {
+			raw = setAlert(raw, r.Choice("alert.hop", p.NumHops), r.Chance("alert.ingressflag", 1, 2))
+		}
+		return raw
+	case 2:
+		q := buildL4(f, slayers.L4UDP, 0, 1, nil, &slayers.UDP{SrcPort: ident, DstPort: 4000}, gopacket.Payload([]byte("quoted")))
+		return buildL4(f, slayers.L4SCMP, 0, 1, ext, &slayers.SCMP{TypeCode: slayers.CreateSCMPTypeCode(slayers.SCMPTypeDestinationUnreachable, 0)},
+			&slayers.SCMPDestinationUnreachable{}, gopacket.Payload(q))
+	default:
+		return buildL4(f, slayers.L4SCMP, 0, 1, ext, &slayers.SCMP{TypeCode: slayers.CreateSCMPTypeCode(slayers.SCMPTypeEchoReply, 0)},
+			&slayers.SCMPEcho{Identifier: ident, SeqNumber: 1}, gopacket.Payload([]byte("pong")))
+	}
+}
